@@ -54,3 +54,13 @@ Proof.
   apply fanout_each_hook_sees_every_call. exact Hr.
 Qed.
 Print Assumptions C14_committed_advance_has_complete_delivery_on_this_tree.
+
+(** the store key is the info's own identifier everywhere it is written or looked up: AddEpochInfo checks existence of
+    and inserts under <info>.Identifier the info itself, BeginBlocker writes the advanced info back under its
+    <info>.Identifier — the premise of modelling the store as one info per identifier ([C14_one_info_per_identifier]);
+    identifiers are therefore compared as raw strings (no trimming, no case folding) *)
+Theorem C14_store_key_is_the_identifier :
+  add_exists_key = "<info>.Identifier"%string /\
+  add_insert = "<info>.Identifier := <info>"%string /\
+  beginblock_insert = "<info>.Identifier := <info>"%string.
+Proof. vm_compute. repeat split; reflexivity. Qed.
